@@ -212,6 +212,7 @@ def pool():
 def run_impl(lines, chunk=400):
     if not lines:
         return []
+    chunk = max(1, min(chunk, -(-len(lines) // (4 * min(16, os.cpu_count() or 4)))))
     chunks = [lines[i:i + chunk] for i in range(0, len(lines), chunk)]
     try:
         res = pool().map_async(_impl_chunk, chunks).get(timeout=3000)
